@@ -36,3 +36,11 @@ chk('C20', 'exploration',
     'classes and nine entry shapes; reference EHABI disassembler over all 65536 (opcode, operand) pairs plus random sequences.',
     'Tag kinds and the opcode table transcribed from the ARM ABI documents; register-list text as llvm-readobj prints it.',
     'ground-truth generators + reference disassembler + consumption-pattern and stream-poisoning monitors', 'DESIGN.md section 4 C20')
+chk('C04', 'exploration',
+    'Ground-truth oracle: generated multi-unit .debug_info/.debug_abbrev/.debug_types sets over version x format x address size x byte '
+    'order x unit kind x sibling-reference form x every attribute form are decoded by the real reader; unit headers, the complete entry '
+    'sequence (offset, size, code, tag, child flag, ordered attribute tuples), exact tiling, children/parent/terminator relations and '
+    'reference resolution are compared, with the section streams repositioned during iteration. The generator itself is cross-validated '
+    'against llvm-dwarfdump on a sample of every run.',
+    'Generator independent of elftools; names from vendored registries; llvm-dwarfdump 14 as cross-validator (declines unknown forms).',
+    'ground-truth generator oracle + stream-position poisoning + third-implementation cross-validation', 'DESIGN.md section 4 C04')
